@@ -219,7 +219,106 @@ def value_objs(v, out):
     return out
 
 
+@st.composite
+def strlike_cases(draw):
+    d = draw(st.integers(1, 2))
+    kind = draw(st.sampled_from(['userstring', 'strsub', 'ystring', 'enum']))
+    if kind == 'enum':
+        d = 1
+    mix_at = draw(st.one_of(st.none(), st.integers(0, d - 1)))
+    names = ['SL%d' % i for i in range(d)] + (['SMix'] if mix_at is not None else [])
+    hooks = {n: {'savorize': draw(st.booleans()), 'sweeten': draw(st.booleans())} for n in names}
+    return {'family': 'strlike', 'kind': kind, 'depth': d, 'mix_at': mix_at,
+            'mix_first': draw(st.booleans()), 'hooks': hooks,
+            'position': draw(st.sampled_from(['doc', 'list', 'dictvalue', 'attr'])),
+            'which': [draw(st.integers(0, d - 1)) for _ in range(draw(st.integers(1, 3)))],
+            'order_rev': draw(st.booleans())}
+
+
+def check_strlike(case, ctx):
+    d, kind = case['depth'], case['kind']
+    classes = []
+    if case['mix_at'] is not None:
+        c = {'name': 'SMix', 'kind': 'mixin', 'reg': False}
+        if case['hooks']['SMix']['savorize']:
+            c['savorize'] = []
+        if case['hooks']['SMix']['sweeten']:
+            c['sweeten'] = []
+        classes.append(c)
+    for i in range(d):
+        n = 'SL%d' % i
+        c = {'name': n, 'kind': kind, 'bases': ['SL%d' % (i - 1)] if i else []}
+        if kind == 'enum':
+            c['members'] = ['red', 'green']
+        if case['mix_at'] == i:
+            c['mixins'] = ['SMix']
+            c['mix_first'] = case['mix_first']
+        if case['hooks'][n]['savorize']:
+            c['savorize'] = []
+        if case['hooks'][n]['sweeten']:
+            c['sweeten'] = []
+        classes.append(c)
+    pos = case['position']
+    which = case['which'] if pos in ('list', 'dictvalue') else case['which'][:1]
+    t0 = ['ref', 'SL0']
+    if pos == 'attr':
+        classes.append({'name': 'H', 'kind': 'obj', 'bases': [], 'params': [{'name': 'x', 'type': t0}]})
+    doc_type = {'doc': t0, 'list': ['list', t0], 'dictvalue': ['dict', 'str', t0],
+                'attr': ['ref', 'H']}[pos]
+    order = [c['name'] for c in classes]
+    spec = {'classes': classes, 'doc_type': doc_type, 'order': order[::-1] if case['order_rev'] else order}
+    m = models.build(spec)
+    desc = lambda: 'case: %s\n  classes:\n%s' % (case, m.source)
+    # values: SL_i objects; for a chain the class is chosen by tag-free
+    # recognition = most derived, so all values are of the deepest class when
+    # depth 2 (SL1 matches every string) - use that
+    deepest = 'SL%d' % (d - 1)
+    cls = m.classes[deepest]
+    mk = (lambda k: cls['red' if k % 2 == 0 else 'green']) if kind == 'enum' else (lambda k: cls('v%d' % k))
+    vals = [mk(k) for k in range(len(which))]
+    value = {'doc': vals[0], 'list': vals, 'dictvalue': {'k%d' % k: v for k, v in enumerate(vals)},
+             'attr': None}[pos]
+    if pos == 'attr':
+        value = m.classes['H'](vals[0])
+    ctx.count('strlike_' + kind)
+
+    def chain_of(hook):
+        return ['SL%d' % j for j in range(d) if case['hooks']['SL%d' % j][hook]]
+    m.reset()
+    try:
+        text = m.dumps(value)
+    except Exception as e:
+        ctx.finding('dump', 'strlike_raises:' + exc_signature(e),
+                    'dumps raised %s: %s\n  %s' % (type(e).__name__, e, desc()))
+        return
+    sw = [e[1] for e in m.log if e[0] == 'sweeten']
+    want = chain_of('sweeten') * len(vals)
+    ctx.nontriv(case)
+    ctx.sample('strlike_%s_%s' % (kind, pos), {'hooks': case['hooks'], 'mix_at': case['mix_at'],
+                                               'yaml': text, 'sweeten_trace': sw})
+    if sw != want:
+        ctx.finding('sweeten', 'strlike:' + _diff_kind([(a, a) for a in sw], [(a, a) for a in want]),
+                    'sweeten hooks called for %d %s object(s) (defining classes): %s\n  by the rule: %s\n  %s'
+                    % (len(vals), deepest, sw, want, desc()))
+        return
+    m.reset()
+    try:
+        back = m.load(text)
+    except Exception as e:
+        ctx.finding('load', 'strlike_load_raises:' + type(e).__name__,
+                    'loading the dump raised %s: %s\n  text: %r\n  %s' % (type(e).__name__, e, text, desc()))
+        return
+    sav = [e[1] for e in m.log if e[0] == 'savorize']
+    want = chain_of('savorize') * len(vals)
+    if sav != want:
+        ctx.finding('savorize', 'strlike:' + _diff_kind([(a, a) for a in sav], [(a, a) for a in want]),
+                    'savorize hooks called (defining classes): %s\n  by the rule: %s\n  text: %r\n  %s'
+                    % (sav, want, text, desc()))
+
+
 def check(case, ctx):
+    if case.get('family') == 'strlike':
+        return check_strlike(case, ctx)
     spec = build_spec(case)
     m = models.build(spec)
     text = doc_text(case)
@@ -252,9 +351,10 @@ def check(case, ctx):
                         '%s of the unregistered class %s was called (cls=%s)\n  %s'
                         % (hook, defined, cls, desc()))
             return
-        if defined != cls:
+        if defined != cls and hook == 'recognize':
+            # (for savorize/sweeten the sequence of defining classes is compared below)
             ctx.finding('own_class', 'hook_called_for_other_class:' + hook,
-                        '%s defined in %s was called with cls=%s\n  %s' % (hook, defined, cls, desc()))
+                        '%s defined in %s was consulted with cls=%s\n  %s' % (hook, defined, cls, desc()))
             return
     if expect_fail:
         if failed is None:
@@ -331,7 +431,7 @@ def check(case, ctx):
         return
     dlog = list(m.log)
     for hook, defined, cls, dig in [e for e in dlog if e[0] in ('recognize', 'savorize', 'sweeten')]:
-        if defined in unreg or defined != cls:
+        if defined in unreg:
             ctx.finding('own_class', 'dump_hook_called_for_other_class:' + hook,
                         '%s defined in %s was called with cls=%s while dumping\n  %s'
                         % (hook, defined, cls, desc()))
@@ -361,4 +461,5 @@ def _diff_kind(got, want):
 
 def phases(tier):
     n = 300 if tier != 'thorough' else 5000
-    return [HypPhase('hook_traces', cases(), n)]
+    return [HypPhase('hook_traces', cases(), n),
+            HypPhase('stringlike_and_enum_hook_traces', strlike_cases(), max(40, n // 4))]
